@@ -1699,3 +1699,67 @@ Proof.
     + auto.
     + split; [congruence|]. intros (i & _ & Hi). rewrite Hn in Hi. discriminate.
 Qed.
+
+
+(* ------------------------------------------------------------------------------------------------ *)
+(* 10. at most [c_nw] tasks are open (begun and not ended) at any time                               *)
+(* ------------------------------------------------------------------------------------------------ *)
+
+Definition isrun (p : tphase) : bool := match p with TRun => true | _ => false end.
+Definition wrun (w : wstate) : bool := match w with WRun _ => true | _ => false end.
+Definition is_beg_ev (e : event) : bool := match e with EvBegin _ => true | _ => false end.
+Definition is_end_ev (e : event) : bool := match e with EvEnd _ _ => true | _ => false end.
+Definition nopen_ok (c : cfg) (s : state) : Prop :=
+  cnt (fun t => isrun (tph s t)) (ntasks s) = cnt (fun w => wrun (wst s w)) (c_nw c) /\
+  length (filter is_beg_ev (log s)) = length (filter is_end_ev (log s)) + cnt (fun t => isrun (tph s t)) (ntasks s).
+
+Lemma nopen_step : forall c s l s', c_fixed c = true -> Inv c s -> step c s l = Some s' ->
+  nopen_ok c s -> nopen_ok c s'.
+Proof.
+  unfold nopen_ok. prepf. all: intros (J1 & J2). all: try (split; assumption).
+  all: cbn [filter is_beg_ev is_end_ev length].
+  all: try (split; assumption).
+  all: try (rewrite !(cnt_upd_same _ isrun) by (rewrite ?Fq_ph, ?Fs_ph, ?Ft_ph; reflexivity);
+            rewrite ?(cnt_upd_same _ wrun) by (rewrite ?E, ?E0; reflexivity); split; assumption).
+  - assert (Hc : cnt (fun t => isrun (upd (tph s) (ntasks s) TQueued t)) (S (ntasks s)) =
+                 cnt (fun t => isrun (tph s t)) (ntasks s)).
+    { cbn [cnt]. rewrite upd_eq. cbn [isrun]. rewrite Nat.add_0_r. apply cnt_ext.
+      intros i Hi. rewrite upd_neq by lia. reflexivity. }
+    rewrite Hc. split; assumption.
+  - rewrite (cnt_upd_inc _ isrun (tph s) t TRun) by (auto; rewrite Ft_ph; reflexivity).
+    rewrite (cnt_upd_inc _ wrun (wst s) w (WRun t)) by (auto; rewrite E; reflexivity).
+    split; lia.
+  - pose proof (cnt_upd_dec _ isrun (tph s) t (TRan ok) (ntasks s) Ft_lt) as H1.
+    rewrite Ft_ph in H1. specialize (H1 eq_refl eq_refl).
+    pose proof (cnt_upd_dec _ wrun (wst s) w (WRan t ok) (c_nw c) Fw_lt) as H2.
+    rewrite E in H2. specialize (H2 eq_refl eq_refl).
+    split; lia.
+  - rewrite (cnt_upd_same _ wrun) by (rewrite E0; reflexivity). split; assumption.
+Qed.
+
+Lemma nopen_reachable : forall c tr s, c_fixed c = true -> steps c init tr s -> nopen_ok c s.
+Proof.
+  intros c tr s Hf H.
+  assert (Hgen : forall s0, Inv c s0 -> nopen_ok c s0 -> forall tr s, steps c s0 tr s -> nopen_ok c s).
+  { intros s0 HI0 H0 tr' s' H'. induction H' as [s0|s0 tr' s1 l s2 H' IH Hc Hs]; auto.
+    apply (nopen_step c s1 l s2 Hf); auto. eapply Inv_steps; eauto. }
+  apply (Hgen init (Inv_init c)) with (tr := tr); auto.
+  unfold nopen_ok, init; proj_simpl. cbn [cnt filter length]. split; [|reflexivity].
+  symmetry. apply cnt_all_false. reflexivity.
+Qed.
+
+(* at every moment of every trace (every suffix of the log) the number of tasks that have begun and not
+   ended is at most the number of workers *)
+Lemma open_tasks_bounded : forall c tr s l1 l2, c_fixed c = true -> steps c init tr s ->
+  log s = l1 ++ l2 ->
+  length (filter is_end_ev l2) <= length (filter is_beg_ev l2) <= length (filter is_end_ev l2) + c_nw c.
+Proof.
+  intros c tr s l1 l2 Hf H Hl.
+  assert (Hs : exists tr1 s1, steps c init tr1 s1 /\ log s1 = l2).
+  { destruct l2 as [|e l2]; [exists [], init; split; [constructor|reflexivity]|].
+    destruct (log_origin _ _ _ H _ _ _ Hl) as (tr1 & s1 & lab & s2 & tr2 & A & B & C & D & E & F & G).
+    exists (tr1 ++ [lab]), s2. split; auto. eapply steps_snoc; eauto. }
+  destruct Hs as (tr1 & s1 & H1 & <-).
+  destruct (nopen_reachable c tr1 s1 Hf H1) as (J1 & J2).
+  pose proof (cnt_le (fun w => wrun (wst s1 w)) (c_nw c)). lia.
+Qed.
